@@ -40,7 +40,9 @@ var reImportOpen = regexp.MustCompile(`import \(\n`)
 func failingVariants(j *Job) []failVariant {
 	var vs []failVariant
 	src := j.Src
-	vs = append(vs, failVariant{"parse-error", src + "\nfunc (\n", -1})
+	if strings.Contains(src, "func main(") {
+		vs = append(vs, failVariant{"parse-error", strings.Replace(src, "func main(", "func main((", 1), -1})
+	}
 	if loc := reImportOpen.FindStringIndex(src); loc != nil {
 		vs = append(vs, failVariant{"unknown-import", src[:loc[1]] + "\t\"nosuch/zzpkg\"\n" + src[loc[1]:], -1})
 	} else if i := strings.Index(src, "package main\n"); i >= 0 {
